@@ -556,8 +556,11 @@ func (p *Printer) rightParen(open, pos Pos) {
 // that startsWithLparen adds to the matching opening parenthesis.
 func (p *Printer) closingParen(stmts []*Stmt, last []Comment, openPos, closePos Pos) {
 	p.wantSpace = spaceNotRequired
-	if len(last) == 0 && len(stmts) == 1 && endsWithRparen(stmts[0]) &&
-		(p.singleLine || openPos.Line() == closePos.Line()) {
+	willNewline := (len(p.pendingHdocs) > 0 || !p.minify) && p.wantsNewline(closePos, false)
+	if len(last) == 0 && len(stmts) == 1 && endsWithRparen(stmts[0]) && !willNewline {
+		// The two closing parentheses end up next to each other. Decide on
+		// that rather than on the source line of the opening parenthesis, so
+		// that formatting the output again makes the same choice.
 		p.wantSpace = spaceRequired
 	}
 	p.spacePad(closePos)
